@@ -331,8 +331,10 @@ class R:
         p = self.p
         M, Q = cm(p), cq(p)
         if h.get("legacy"):
+            # (the handler may use another error type than the contract's: the entry point converts it)
+            ret = f"StdResult<Response<{M}>>" if h.get("ret_err") == "std" else f"Result<Response<{M}>, {p['error']}>"
             return ["#[sv::msg(reply)]",
-                    f"fn {h['name']}(&self, ctx: {self.sv}::types::ReplyCtx<{Q}>, reply: Reply) -> Result<Response<{M}>, {p['error']}> {{",
+                    f"fn {h['name']}(&self, ctx: {self.sv}::types::ReplyCtx<{Q}>, reply: Reply) -> {ret} {{",
                     f"    echo_mut(\"{h['hid']}\", ctx.deps, &ctx.env, None, None, vec![(\"reply\", svmon::serde_json::to_string(&reply).unwrap())])",
                     "}"]
         args_ = []
